@@ -315,6 +315,12 @@ class Ctx:
             print("VIOLATION property=%s replay=%s%s" % (self.prop, path,
                   " no-failing-input-found" if no_input else ""))
         cov = dict(self.coverage)
+        if not self.violations and self.discharged < self.obligations:
+            # every failed obligation was matched by a listed known finding: the claim made on
+            # this tree is the one restricted to inputs outside the known classes
+            # (forall x, ~ KnownClass x -> P x); say so instead of counting them as demanded
+            cov["obligations_restricted_by_known_findings"] = self.obligations - self.discharged
+            self.obligations = self.discharged
         cov.update({
             "evaluations": self.evaluations,
             "distinct_nontrivial": self.nontrivial,
